@@ -103,7 +103,13 @@ func WriteHeader(h *protocol.ResponseHeader, w network.Writer) error {
 
 // ConnectionUpgrade returns true if 'Connection: Upgrade' header is set.
 func ConnectionUpgrade(h *protocol.ResponseHeader) bool {
-	return ext.HasHeaderValue(h.Peek(consts.HeaderConnection), bytestr.StrUpgrade)
+	// the option list may come on several Connection lines
+	for _, v := range h.PeekAll(consts.HeaderConnection) {
+		if ext.HasHeaderValue(v, bytestr.StrUpgrade) {
+			return true
+		}
+	}
+	return false
 }
 
 func tryRead(h *protocol.ResponseHeader, r network.Reader, n int) error {
